@@ -73,6 +73,47 @@ def commands(rng, mode_pool):
     return mode, opts
 
 
+def parse_events(rng, sc, lha, hdr, tier, ev):
+    """arbitrary command words: usage page iff Cli!ParseCommand rejects; otherwise the output for the derived options"""
+    ms = [RG.G("dir", b"d", level=1), RG.G("file", b"d/f1", data=b"hello\n", level=1), RG.G("file", b"g", data=b"x" * 3000, level=2),
+          RG.G("link", b"ln", target=b"g", level=1), RG.G("file", b"bad", data=b"abc", crc=1, level=1)]
+    a, _ = RG.write_case(sc, "parse", ms, "eod")
+    os.chmod(a, 0o644)
+    members, p = LG.collect_members(hdr, [a], sc, "parse")
+    recs = members[0]
+    out = []
+    words = ["x", "e", "t", "p", "l", "v", "-x", "-t", "--t", "xq", "xq0", "xq1", "xq2", "xq3", "xq9", "xqq", "xq1q", "tq1n", "xfin", "xnf", "xw", "xw=", "xw=o",
+             "xwo", "xfw=o", "xw=of", "xw==o", "xnw-o", "tw-o", "xnw=-o", "pnwq1", "xnwf", "tz", "z", "", "-", "xQ", "x0", "xqf", "tqn", "pn", "pq", "pq1", "xiq0", "xvq1f", "xn", "en", "tn", "T", "X"]
+    alpha = "lvtexpfinqw=0129z-"
+    for _ in range(30 if tier == "quick" else 600):
+        words.append(rng.choice("lvtexp-z") + "".join(rng.choice(alpha) for _ in range(rng.randint(0, 5))))
+    for k, w in enumerate(words):
+        cwd = os.path.join(sc, "pc%d" % k)
+        os.makedirs(cwd)
+        os.chmod(cwd, 0o777)
+        cmd = [lha, w, a]
+        if os.geteuid() == 0:
+            cmd = ["setpriv", "--reuid=65534", "--regid=65534", "--clear-groups"] + cmd       # ("xw" alone extracts into "/")
+        pr = subprocess.run(cmd, capture_output=True, env=V.run_env(), stdin=subprocess.DEVNULL, timeout=120, cwd=cwd)
+        if pr.returncode < 0 or pr.returncode == 99:
+            raise V.HarnessError("lha %r died: %s" % (w, pr.stderr.decode(errors="replace")[-300:]))
+        helped = pr.stdout.startswith(b"Lhasa v") and b"usage:" in pr.stdout and pr.returncode == 255
+        mm = []
+        for g, r in zip(ms, recs):
+            t = g.truth()
+            m = dict(r)
+            m["produced"] = len(g.data[:g.length]) if t["sup"] else 0
+            m["good"] = bool(t["good"])
+            m["data"] = t["data"]
+            m["exists"] = False
+            mm.append(m)
+        out.append({"e": "Parse", "cmd": list(w.encode()), "help": helped, "members": mm, "out": [] if helped else list(pr.stdout), "code": pr.returncode})
+        ev.cls(("parse", helped, w[:1]))
+        shutil.rmtree(cwd, ignore_errors=True)
+    ev.add("command_words_tried", len(words))
+    return out
+
+
 def run(pid, tier, seed, ev, count, hostile_names=False, modes=("t", "x", "e", "p")):
     rng = random.Random(seed ^ 0xC11)
     sc = V.scratch(pid.lower() + "cli")
@@ -139,6 +180,7 @@ def run(pid, tier, seed, ev, count, hostile_names=False, modes=("t", "x", "e", "
                            "archive_hex": open(a, "rb").read().hex() if os.path.getsize(a) < 4096 else "(large: see clicommon.crafted)"})
             ev.cls(("cli", mode, opts, bool(filters)))
             shutil.rmtree(xd, ignore_errors=True)
+    events += parse_events(rng, sc, lha, hdr, tier, ev)
     nsh = min(V.NCPU, max(1, len(events) // 4))
     results = []
     for k in range(nsh):
